@@ -26,6 +26,9 @@ def grid(tier):
                 g.append(dict(name="t_l%d_c%d_h%d" % (lv, ch, h0),
                               params=dict(NREADS=-1, CHOP=ch, METHOD=0 if lv == 0 else 2, LEVEL=lv, HDR0=h0, B=0x20000, Q=10),
                               items=items()))
+    # objects whose tail is skipped with seekg by the decoder (single-byte serial events: 15 unused union bytes)
+    g.append(dict(name="t_sb_l0", params=dict(NREADS=-1, CHOP=50, METHOD=0, LEVEL=0, HDR0=0, B=0x20000, Q=10),
+                  items=[SC.can(1), ["serialsb", 2], ["serialsb", 3], SC.can(4), ["serialsb", 5]]))
     return g
 
 
